@@ -18,6 +18,9 @@ def extra(led, tier, seed):
     # the batch size the loops use is the one the caller gave: every constructor stores batch_size (and the other options) unchanged
     from contracts import forwarding
     led.extend(o for o in forwarding.init_obligations() if "GEMINI" not in o.name and not o.name.startswith("MI."))
+    from contracts import sparse_sel
+    led.extend(o for o in sparse_sel.update_weights_flow() if "optimiser update" in o.name or "two paths" in o.name)
+    led.extend(forwarding.update_step_obligations())
     led.assume("A2", "A4", "A8",
                "random_state.permutation(n) returns a permutation of 0..n-1 (contract on NumPy)",
                "NumPy indexing axioms: X[idx][a] = X[idx[a]], (A[r][:, c])[a,b] = A[r[a], c[b]], arange(n)[part] = part",
